@@ -489,7 +489,7 @@ func runC04R3(c *eng.Ctx, r *eng.RuleCtx) {
 				return isC && s == "Fail"
 			}
 		}
-		checkErrSites(r, f, func(o types.Object) bool { return o.Name() == "HandleEnableKubernetesBindings" }, failStore, nil)
+		checkErrSites(r, f, func(o types.Object) bool { return nameOf(o) == "HandleEnableKubernetesBindings" }, failStore, nil)
 	}
 }
 
